@@ -29,11 +29,11 @@ HAS_BLANK_LINE_RE = re.compile(r"\n[ \t]*\n$")
 
 def parse_def_list(block: "BlockParser", m: Match[str], state: "BlockState") -> int:
     pos = m.end()
-    children = list(_parse_def_item(block, m))
+    children = list(_parse_def_item(block, m, state))
 
     m2 = DEF_RE.match(state.src, pos)
     while m2:
-        children.extend(list(_parse_def_item(block, m2)))
+        children.extend(list(_parse_def_item(block, m2, state)))
         pos = m2.end()
         m2 = DEF_RE.match(state.src, pos)
 
@@ -46,7 +46,7 @@ def parse_def_list(block: "BlockParser", m: Match[str], state: "BlockState") -> 
     return pos
 
 
-def _parse_def_item(block: "BlockParser", m: Match[str]) -> Iterable[Dict[str, Any]]:
+def _parse_def_item(block: "BlockParser", m: Match[str], state: "BlockState") -> Iterable[Dict[str, Any]]:
     head = m.group("def_list_head")
     for line in head.splitlines():
         yield {
@@ -68,7 +68,7 @@ def _parse_def_item(block: "BlockParser", m: Match[str]) -> Iterable[Dict[str, A
 
         end = m2.start()
         text = src[start:end].replace(":", " ", 1)
-        children = _process_text(block, text, prev_blank_line)
+        children = _process_text(block, text, prev_blank_line, state)
         prev_blank_line = bool(HAS_BLANK_LINE_RE.search(text))
         yield {
             "type": "def_list_item",
@@ -77,17 +77,17 @@ def _parse_def_item(block: "BlockParser", m: Match[str]) -> Iterable[Dict[str, A
         start = end
 
     text = src[start:].replace(":", " ", 1)
-    children = _process_text(block, text, prev_blank_line)
+    children = _process_text(block, text, prev_blank_line, state)
     yield {
         "type": "def_list_item",
         "children": children,
     }
 
 
-def _process_text(block: "BlockParser", text: str, loose: bool) -> List[Any]:
+def _process_text(block: "BlockParser", text: str, loose: bool, parent: "BlockState") -> List[Any]:
     text = TRIM_RE.sub("", text)
-    state = block.state_cls()
-    state.process(strip_end(text))
+    # a child state shares env (link reference and footnote definitions) with the document
+    state = parent.child_state(strip_end(text))
     # use default list rules
     block.parse(state, block.list_rules)
     tokens = state.tokens
